@@ -16,12 +16,15 @@ def gen(ck, params):
             cases.append(("uniform: boundary words (mask, p-1, p, p+1, all-ones) and random", cfg, "uniform %s T %s" % (head, tape_words(ws, wb))))
         cases.append(("uniform: all-ones tape", cfg, "uniform %s T %s" % (head, "ff" * (n * nm * wb))))
         # bounded: B around powers of two, amplifier 1,2,3; words hitting 2B-2, 2B-1, B-1, B, mask
-        for B in [1, 2, 3, 4, 5, 8, 9, 1000, 4095, 4096, 4097] + ([] if q else [2 ** 10 - 1, 2 ** 12 + 1, 2 ** 13]) + [min(ps) - 1, min(ps), min(ps) + 1]:
+        # ... and bounds at and next to every power of two the limb can hold (the mask is the bit length of 2B-1: one bit more or less is a
+        # different distribution), with words at the mask, one bit above it, and all-ones
+        pows = [b_ for k_ in range(5, w - 2) for b_ in (2 ** k_ - 1, 2 ** k_, 2 ** k_ + 1) if b_ < min(ps) and (not q or k_ % 3 == (w // 16) % 3 or k_ >= w - 16)]
+        for B in [1, 2, 3, 4, 5, 8, 9, 1000, 4095, 4096, 4097] + ([] if q else [2 ** 10 - 1, 2 ** 12 + 1, 2 ** 13]) + pows + [min(ps) - 1, min(ps), min(ps) + 1]:
             for A in (1, 2, 3):
                 if B < min(ps) and A * (B - 1) >= min(ps): continue     # inadmissible amplifier (stated hypothesis of the theorem)
                 if B >= min(ps) and A != 1: continue
                 m = (1 << ((2 * B - 1).bit_length())) - 1 if B >= 1 else 0
-                sp = [0, B - 1, B, 2 * B - 2, 2 * B - 1, m, m - 1, B2 - 1]
+                sp = [0, B - 1, B, 2 * B - 2, 2 * B - 1, m, m - 1, B2 - 1, (2 * m + 1) % B2, (m + 1) % B2, (m + 2 * B) % B2]
                 ws = [rng.choice(sp) if rng.random() < 0.7 else rng.randrange(B2) for _ in range(n)]
                 cases.append(("bounded: B=%s A=%d boundary words" % ("p_min+-1" if B >= min(ps) - 1 else ("2^k+-1" if B > 8 else "small"), A), cfg, "bounded %s %d %d T %s" % (head, B, A, tape_words(ws, wb))))
         # ternary: every byte value for a few thresholds
